@@ -14,10 +14,15 @@ static pthread_mutex_t vt_mx = PTHREAD_MUTEX_INITIALIZER;
 static long vt_seq;
 static long vt_limit = 0, vt_count = 0; /* events per file chunk (0 = unlimited) */
 
+#include <signal.h>
+/* a crashing library must not take the recorded prefix with it: flush the trace on fatal signals
+ * (the sanitizers are told to abort, so their reports arrive here as SIGABRT) */
+static void vt_crash (int sig) { if (vt_fp) fflush (vt_fp); _exit (128 + sig); }
 static void vt_open (const char *path) {
 	vt_fp = fopen (path, "w");
 	if (!vt_fp) { perror (path); exit (2); }
 	setvbuf (vt_fp, NULL, _IOFBF, 1 << 20);
+	signal (SIGSEGV, vt_crash); signal (SIGBUS, vt_crash); signal (SIGABRT, vt_crash); signal (SIGFPE, vt_crash);
 }
 static void vt_close (void) { if (vt_fp) { fflush (vt_fp); fclose (vt_fp); vt_fp = NULL; } }
 /* emit one complete json line; fmt must produce a full object */
